@@ -339,8 +339,9 @@ def rules(rep, facts):
     r2_inplace(rep, facts)
     r2d_bulk_insertion(rep, facts)
     r7_fmt_scope(rep, facts)
-    from .rules_containers import r8_map_summaries
+    from .rules_containers import r8_map_summaries, r9c_sequence_summaries
     r8_map_summaries(rep, facts, rid='C08/R8')
+    r9c_sequence_summaries(rep, facts, rid='C08/R8b')
     r3_conversions(rep, facts)
     R6 = rep.rule('C08/R6', 'sorting touches what the API documents: each of the four sort functions sorts its own entries once, recurses only into dotted '
                   'children (sub-tables with their own header keep their order), through the same function and with the same comparison', floor=8)
